@@ -30,7 +30,7 @@ var allow = []string{
 	"catch", "config", "continue", "count", "cpuarch", "cpucount", "datetime", "err", "escape", "esccli", "eschtml",
 	"escurl", "exitnum", "expr", "f", "false", "fid-list", "for", "foreach", "formap", "format", "g", "get-type", "global",
 	"if", "is-null", "ja", "jsplit", "key-code", "left", "list.case", "map", "match", "mjoin", "msort", "mtac",
-	"murex-docs", "murex-parser", "null", "or", "os", "out", "prefix", "prepend", "pretty", "regexp", "return", "right",
+	"murex-parser", "null", "or", "os", "out", "prefix", "prepend", "pretty", "regexp", "return", "right",
 	"round", "runtime", "rx", "set", "struct-keys", "suffix", "switch", "ta", "tabulate", "test", "tout", "true", "try",
 	"tryerr", "trypipe", "trypipeerr", "type", "unsafe", "unset", "version", "which",
 }
@@ -70,13 +70,14 @@ func init() {
 
 	vlib.Register(&vlib.Check{
 		ID: "C19", Engine: "E2",
-		Rule: "program = one command from an explicit allow-list of 96 data/structural builtins (index, element, range, lists, mkarray, format, cast, tout, args, config, set/global, escape family, json tools, count, match/regexp, alter, struct-keys, switch/if/foreach/try family, test …) x every argument tuple of arity <= A over {empty string, -1, -5, 0, 99999999999999999999, --bad, {, [, ], a, null, [1,2], {\"a\":1}} passed verbatim through variables (quick A=1, plus A=2 for the builtins that need two arguments: args tout alter config test map set cast format; thorough A=2 for all) x mode {function without stdin; method fed by {empty, two lines, JSON array, JSON object}} x scope parameters {none, --bad, -1 (thorough also: a; --bad a)}; each run in-process on its own goroutine with fd 2 captured and a 5 s ceiling (a time-out without a crash report on fd 2 is re-run with 20 s before it is believed; once a builtin has blocked the caller its further cases use a 0.4 s ceiling, and after 60 blocked cases in one builtin/arity/mode/scope class the rest of that class is skipped and counted); plus every sequence of <= 3 (thorough <= 4) commands over {pipe a, !pipe a, pipe b, !pipe b} run in a child murex process built from the working tree which then waits 3 s (the close grace period) and must still print `alive`. Oracle: the run returns control; no 'panic caught', no 'Murex has crashed', no Go panic trace; exit number != 0 whenever stderr carries a murex error report (`Error in`); child process exits normally. non-trivial = the command reported an error or produced output on stderr (an error path was executed) or the case is a pipe sequence with at least one close",
+		Rule: "program = one command from an explicit allow-list of 95 data/structural builtins (index, element, range, lists, mkarray, format, cast, tout, args, config, set/global, escape family, json tools, count, match/regexp, alter, struct-keys, switch/if/foreach/try family, test …) x every argument tuple of arity <= A over {empty string, -1, -5, 0, 99999999999999999999, --bad, {, [, ], a, null, [1,2], {\"a\":1}} passed verbatim through variables (quick A=1, plus A=2 for the builtins that need two arguments: args tout alter config test map set cast format; thorough A=2 for all) x mode {function without stdin; method fed by {empty, two lines, JSON array, JSON object}} x scope parameters {none, --bad, -1 (thorough also: a; --bad a)}; each run in-process (same fork seam as mx.Run) on its own goroutine with fd 2 read while it runs: 'blocked' is declared when crash.Handler's report is on fd 2 and the caller is still waiting 0.3 s later, or when nothing came back after 120 s; after 24 blocked cases in one builtin/arity/mode/scope class the rest of that class is skipped and counted; plus every sequence of <= 3 (thorough <= 4) commands over {pipe a, !pipe a, pipe b, !pipe b} run in a child murex process built from the working tree which then waits 3 s (the close grace period) and must still print `alive`. Oracle: the run returns control; no 'panic caught', no 'Murex has crashed', no Go panic trace; exit number != 0 whenever stderr carries a murex error report (`Error in`); child process exits normally. non-trivial = the command reported an error or produced output on stderr (an error path was executed) or the case is a pipe sequence with at least one close",
 		Run:    run,
 		Replay: replay,
 		Shards: func(string) int { return 16 },
 		Assumptions: []string{
 			"allow-list, argument alphabet, arity and stdin alphabet as stated; commands that wait for input, sleep, fork, exit, run external programs, touch the network or the file system, define aliases/functions or may loop forever by design (while / !while) are excluded",
 			"what the command prints is not compared (other properties do that); state left behind by one case (variables, config) is visible to later cases of the same worker",
+			"`murex-docs` is not on the list: its document table is filled in by murex's main package, which the in-process seam does not link (it crashes on a nil function there, and works in the real binary)",
 			"a Go panic on a goroutine murex does not guard kills the worker process: the run then ends with a harness error naming the stack (exit 2) instead of a violation",
 		},
 	})
@@ -168,16 +169,8 @@ type verdict struct {
 	clause, detail string
 }
 
-func runCase(k kase, ceiling time.Duration) (mx.Result, string) {
-	var r mx.Result
-	fd2 := mx.CaptureFD2(func() {
-		r = mx.Run(k.program(), &mx.Opt{Vars: k.vars(), Ceiling: ceiling, Setup: func(f *lang.Fork) {
-			if len(k.scope) > 0 {
-				f.Parameters.DefineParsed(k.scope)
-			}
-		}})
-	})
-	return r, fd2
+func runCase(k kase) (mx.Result, string) {
+	return runGuarded(k.program(), k.vars(), k.scope, 0)
 }
 
 func judge(r mx.Result, fd2 string) *verdict {
@@ -221,27 +214,22 @@ func firstLines(s string, n int) string {
 	return vlib.Clip(strings.Join(l, " / "), 500)
 }
 
-// hung counts, per builtin, the cases that left the caller blocked. The first one costs the full ceiling; after it
-// the builtin's cases run with a short ceiling and a time-out is believed at once only when crash.Handler's
-// report is on fd 2 (otherwise the case is re-run with the long ceiling). After maxHangs the remaining cases of
-// that builtin/arity/mode class are skipped and counted.
-const maxHangs = 60
+// After maxHangs cases of one builtin/arity/mode/scope class left the caller blocked the rest of the class is
+// skipped and counted (each blocked case costs 0.3 s and leaves goroutines behind).
+const maxHangs = 24
+
+// VERIF_G6_TRACE=<file prefix>: every case is logged before it runs (debugging aid for a worker that dies or stalls)
+var trace *os.File
 
 func evalCase(c *vlib.Ctx, k kase, n int, hung map[string]int) {
-	name := allow[k.b]
 	if hung[k.class()] >= maxHangs {
 		c.Extra("skipped: sibling of "+fmt.Sprint(maxHangs)+" cases already reported as blocking the caller", 1)
 		return
 	}
-	ceiling := 5 * time.Second
-	if hung[name] > 0 {
-		ceiling = 400 * time.Millisecond
+	if trace != nil {
+		fmt.Fprintf(trace, "%s %s\n", time.Now().Format("15:04:05.000"), k.witness())
 	}
-	r, fd2 := runCase(k, ceiling)
-	if r.Hang && !strings.Contains(fd2, "Murex has crashed") {
-		// no crash report: make sure it is not a slow machine
-		r, fd2 = runCase(k, 20*time.Second)
-	}
+	r, fd2 := runCase(k)
 	v := judge(r, fd2)
 	outcome := "ok-silent"
 	switch {
@@ -264,7 +252,6 @@ func evalCase(c *vlib.Ctx, k kase, n int, hung map[string]int) {
 	if v != nil {
 		if r.Hang {
 			hung[k.class()]++
-			hung[name]++
 			if hung[k.class()] == maxHangs {
 				c.Note("class %s: %d cases left the caller blocked; its remaining cases are skipped (each costs a ceiling)", k.class(), maxHangs)
 			}
@@ -410,6 +397,9 @@ func run(c *vlib.Ctx) {
 		if lang.GoFunctions[name] == nil {
 			c.HarnessError("allow-listed command %q is not a builtin of this build (it would be run as an external program)", name)
 		}
+	}
+	if t := os.Getenv("VERIF_G6_TRACE"); t != "" {
+		trace, _ = os.Create(fmt.Sprintf("%s-%d", t, c.Shard))
 	}
 	n := 0
 	hung := map[string]int{}
